@@ -61,6 +61,9 @@ structure DetKwIn where
   bp : Option (List Nat) := none
   axis0 : Bool := false
   bogus : Bool := false
+  /-- `overwrite_data=` (documented scipy keyword, forwarded by `_detrend_data(**kwargs)`): no effect on the value or on
+      which calls raise; it decides WHERE the result is written (Model/PrepOwn.lean). -/
+  overwriteData : Option Bool := none
   deriving DecidableEq, Repr, Inhabited
 
 /-- The symbolic array. `init i` is the `i`-th array handed to the constructor. -/
